@@ -13,6 +13,8 @@ import (
 	"path/filepath"
 	"reflect"
 	"strings"
+	"sync"
+	"time"
 	"unicode/utf8"
 
 	"github.com/Khan/genqlient/graphql"
@@ -47,14 +49,18 @@ type Obs struct {
 type ctxKey struct{}
 
 type stubDoer struct {
-	calls int
-	req   *http.Request
-	body  []byte
+	calls      int
+	req        *http.Request
+	body       []byte
+	beforeRead func() // runs inside Do before the request body is read
 }
 
 func (d *stubDoer) Do(r *http.Request) (*http.Response, error) {
 	d.calls++
 	d.req = r
+	if d.beforeRead != nil {
+		d.beforeRead()
+	}
 	if r.Body != nil {
 		d.body, _ = io.ReadAll(r.Body)
 	}
@@ -74,14 +80,18 @@ func variablesValue(c *Case) interface{} {
 	return v
 }
 
-func Observe(c *Case) (o *Obs) {
+func Observe(c *Case) (o *Obs) { return ObserveWith(c, nil) }
+
+// ObserveWith runs one request; beforeRead (if any) runs inside Do before the body is read,
+// which lets a history interleave a second request between building and sending the first.
+func ObserveWith(c *Case, beforeRead func()) (o *Obs) {
 	o = &Obs{}
 	defer func() {
 		if v := recover(); v != nil {
 			o.Panicked = fmt.Sprint(v)
 		}
 	}()
-	d := &stubDoer{}
+	d := &stubDoer{beforeRead: beforeRead}
 	var cl graphql.Client
 	if c.Method == "GET" {
 		cl = graphql.NewClientUsingGet(c.Endpoint, d)
@@ -450,6 +460,29 @@ func GenCase(r *core.Rng, id int) *Case {
 	return c
 }
 
+func runHistory(a, b2 *Case, mode int) (oa, ob *Obs) {
+	if mode == 0 {
+		oa = ObserveWith(a, func() { ob = Observe(b2) })
+		return oa, ob
+	}
+	var wg sync.WaitGroup
+	barrier := make(chan struct{})
+	arrived := make(chan struct{}, 2)
+	wait := func() { arrived <- struct{}{}; <-barrier }
+	wg.Add(2)
+	go func() { defer wg.Done(); oa = ObserveWith(a, wait) }()
+	go func() { defer wg.Done(); ob = ObserveWith(b2, wait) }()
+	for i := 0; i < 2; i++ {
+		select {
+		case <-arrived:
+		case <-time.After(2 * time.Second):
+		}
+	}
+	close(barrier)
+	wg.Wait()
+	return oa, ob
+}
+
 func corpus() []*Case {
 	return []*Case{
 		{ID: "k1", Method: "GET", Endpoint: "http://h/graphql?token=a+b&x=1#f", Query: "\nquery Q { f }\n", OpName: "Q", Variables: json.RawMessage(`{"a":"x&y=z"}`), Kind: "emitted"},
@@ -541,19 +574,46 @@ func CoqCase(idx int, c *Case, o *Obs) (string, bool) {
 
 func Run(tier string, seed int64, outDir string, replay string) (*core.Result, error) {
 	res := core.NewResult("C11", tier, seed)
-	res.Rule = "random graphql.Request values (documents: generator-shaped for each operation kind, leading white space, compact `kw{`, hidden-prefix comment/comma/BOM, fragment-first, multi-operation, random Unicode text, empty; operation names and variables with URL-significant and non-ASCII characters) x endpoints with and without query strings (repeated keys, keys colliding with query/variables/operationName, escapes, fragments; 8% with segments net/url cannot decode) x {GET, POST} client, against a recording Doer; non-trivial = Do was called or the gate fired; distinct by (method, endpoint, request)"
+	res.Rule = "random graphql.Request values (documents: generator-shaped for each operation kind, leading white space, compact `kw{`, hidden-prefix comment/comma/BOM, fragment-first, multi-operation, random Unicode text, empty; operation names and variables with URL-significant and non-ASCII characters) x endpoints with and without query strings (repeated keys, keys colliding with query/variables/operationName, escapes, fragments; 8% with segments net/url cannot decode) x {GET, POST} client, against a recording Doer; non-trivial = Do was called or the gate fired; distinct by (method, endpoint, request); plus two-request histories (nested inside Do / concurrent behind a barrier) where the second request is built before the first body is read"
 	if replay != "" {
 		data, err := os.ReadFile(replay)
 		if err != nil {
 			return nil, err
 		}
 		var wrap struct {
-			Replay Case `json:"replay"`
+			Replay json.RawMessage `json:"replay"`
 		}
 		if err := json.Unmarshal(data, &wrap); err != nil {
 			return nil, err
 		}
-		c := &wrap.Replay
+		var hist struct {
+			History []*Case `json:"history"`
+			Mode    int     `json:"mode"`
+		}
+		if json.Unmarshal(wrap.Replay, &hist) == nil && len(hist.History) == 2 {
+			a, b2 := hist.History[0], hist.History[1]
+			var oa, ob *Obs
+			oa, ob = runHistory(a, b2, hist.Mode)
+			for _, pr := range []struct {
+				c *Case
+				o *Obs
+			}{{a, oa}, {b2, ob}} {
+				ob2, _ := json.Marshal(pr.o)
+				fmt.Printf("replay %s: %s\n", pr.c.ID, ob2)
+				if pr.o == nil {
+					continue
+				}
+				if cls, what := Oracle(pr.c, pr.o); cls != "" {
+					res.Fail(core.Failure{Case: pr.c.ID, Class: cls, What: what, Replay: hist})
+				}
+			}
+			res.Count(a.ID, true)
+			return res, nil
+		}
+		c := &Case{}
+		if err := json.Unmarshal(wrap.Replay, c); err != nil {
+			return nil, err
+		}
 		o := Observe(c)
 		cls, what := Oracle(c, o)
 		ob, _ := json.Marshal(o)
@@ -601,6 +661,38 @@ func Run(tier string, seed int64, outDir string, replay string) (*core.Result, e
 		if t, ok := CoqCase(i, c, o); ok {
 			caseIndex[fmt.Sprint(i)] = c
 			coqCases = append(coqCases, t)
+		}
+	}
+	// histories: a second request is built (nested inside the first one's Do, or concurrently
+	// behind a barrier) before the first one's body has been read; each must still carry its own data
+	nh := 150
+	if tier == "thorough" {
+		nh = 1500
+	}
+	for h := 0; h < nh; h++ {
+		a, b2 := GenCase(rng, 100000+2*h), GenCase(rng, 100001+2*h)
+		a.Method, b2.Method = "POST", "POST"
+		if rng.Chance(0.3) {
+			a.Method, b2.Method = "GET", "POST"
+		}
+		a.Query, a.Kind = "\nquery Outer { f(a: \""+strings.Repeat("x", rng.Intn(60))+"\") }\n", "emitted"
+		b2.Query, b2.Kind = "\nquery In { f }\n", "emitted"
+		a.ID, b2.ID = fmt.Sprintf("h%d.outer", h), fmt.Sprintf("h%d.inner", h)
+		a.Endpoint, b2.Endpoint = genEndpoint(rng, false), genEndpoint(rng, false)
+		oa, ob := runHistory(a, b2, h%2)
+		res.Count(a.ID+a.Endpoint+a.Query+b2.Endpoint+string(b2.Variables), true)
+		res.Dist("history:" + map[bool]string{true: "nested", false: "concurrent"}[h%2 == 0])
+		for _, pr := range []struct {
+			c *Case
+			o *Obs
+		}{{a, oa}, {b2, ob}} {
+			if pr.o == nil {
+				res.Fail(core.Failure{Case: pr.c.ID, Class: "C11/history-no-observation", What: "request did not complete", Replay: []*Case{a, b2}})
+				continue
+			}
+			if cls, what := Oracle(pr.c, pr.o); cls != "" {
+				res.Fail(core.Failure{Case: pr.c.ID, Class: cls, What: what + " (second request built before this body was read)", Replay: map[string]interface{}{"history": []*Case{a, b2}, "mode": h % 2}})
+			}
 		}
 	}
 	shard := 400
